@@ -204,11 +204,17 @@ def incremental_snapshot(F):
     out = [Result("holds", "the snapshot named by the shipped MANIFEST is archived (%s)" % ", ".join(smp["snapshot_entries"]), queries=r.queries, seconds=r.seconds, sample=smp)]
     SNAP_ENTRY = Ev(r"= ArchiveEntry::from_path::<", kind="call", also=lambda f, b, t: b.idx in snap_blocks, name="entries.push(snapshot named by the MANIFEST)")
     CHAIN = call(r"= BackupManager::chain_snapshot_file\(", name="chain_snapshot_file(parent)")
-    atoms = [("differs", r"^call <Option<&str> as PartialEq>::ne$"), ("exists", r"^call Path::exists$")]
-    out += MD.decides(F, C, CHAIN, {"ship": SNAP_ENTRY}, atoms, {"ship": "(and differs exists)"}, declare=("differs", "exists"), containing=SNAP_ENTRY,
+    # the comparison with the chain's snapshot may be written with != or ==
+    forms = set(m_.group(1) for b in fn.blocks.values() if not b.cleanup and b.kind == "call" for m_ in [re.search(r"<(?:std::option::)?Option<&str> as PartialEq>::(ne|eq)\(", b.term or "")] if m_)
+    if len(forms) != 1:
+        return out + [Result("inconclusive", "comparison of the referenced snapshot with the chain's snapshot not recognised (%s)" % sorted(forms))]
+    form = forms.pop()
+    differs = "cmp" if form == "ne" else "(not cmp)"
+    atoms = [("cmp", r"^call <Option<&str> as PartialEq>::%s$" % form), ("exists", r"^call Path::exists$")]
+    out += MD.decides(F, C, CHAIN, {"ship": SNAP_ENTRY}, atoms, {"ship": "(and %s exists)" % differs}, declare=("cmp", "exists"), containing=SNAP_ENTRY,
                       what="the referenced snapshot is archived iff it differs from the snapshot the parent chain carries (and the file exists)")
     # a snapshot that differs is never skipped silently: from the `differs` arm the Ok exit is reached only through the entry
-    out.append(fc.follows(Arm(r"^call <Option<&str> as PartialEq>::ne$", {"otherwise"}, name="referenced snapshot != chain snapshot"), SNAP_ENTRY, exit="ok"))
+    out.append(fc.follows(Arm(r"^call <Option<&str> as PartialEq>::%s$" % form, {"otherwise"} if form == "ne" else {"0"}, name="referenced snapshot != chain snapshot"), SNAP_ENTRY, exit="ok"))
     # (c) metadata.snapshot_file
     sf = None
     for b in fn.blocks.values():
